@@ -33,8 +33,10 @@ func (s *stack) size() int {
 	return s.nodes.Len()
 }
 
-// depth-first search
-func (s *stack) dfs(current *Node) {
+// depth-first search.
+// It reports whether a parent for current was found. When it returns false the stack
+// is empty: current is nested more than one level deeper than the item before it.
+func (s *stack) dfs(current *Node) bool {
 	size := s.size()
 	for range size {
 		parent := s.pop()
@@ -45,12 +47,13 @@ func (s *stack) dfs(current *Node) {
 		// for same name on the same hierarchy
 		if child := parent.findChildByText(current.name); child != nil {
 			s.push(parent).push(child)
-			return
+			return true
 		}
 
 		parent.addChild(current)
 		current.setParent(parent)
 		s.push(parent).push(current)
-		return
+		return true
 	}
+	return false
 }
